@@ -158,7 +158,7 @@ func (d *driver) run() int {
 	rng := rand.New(rand.NewSource(d.seed*7919 + int64(len(d.prop))))
 	var specs []runSpec
 	for _, pe := range spec.Plan {
-		if d.only != "" && !strings.Contains(pe.Scenario, d.only) {
+		if d.only != "" && !strings.Contains(pe.Scenario+" "+pe.Params, d.only) {
 			continue
 		}
 		n := pe.Quick
